@@ -24,7 +24,7 @@ func init() {
 	Registry["C06"] = Spec{
 		Fn:           c06,
 		Level:        "exploration",
-		Rule:         "inputs = structure-aware mutations of valid library encodings (blocks of every catalogue column and random compositions; every protocol message): every bit flipped and every byte replaced by {00,01,7f,80,ff} at every offset of small encodings; a uvarint and a 64-bit field overwritten at every offset with {0,1,cap-1,cap,cap+1,2^31,2^32,2^63-1,2^64-1} and smaller/non-monotonic neighbours; splices, truncation+garbage, duplication; the column type name in the block header replaced by ~130 malformed names (parentheses reversed / unbalanced / emptied, parameters cut or replaced by garbage, bad Enum / DateTime64 / Decimal / FixedString parameters, nesting 50 and 2000 deep); the same blocks inside NONE / LZ4 / ZSTD frames whose header fields are forged (every small value and the 2^k boundaries of both size fields, with the original and with a recomputed checksum) or bit-flipped; decoded through typed, boxed and inferred targets and every message decoder. Two regimes: 'flood' (hook caps lowered to 2^16 rows / 2^20 string bytes; arbitrary mutations; allocation delta <= 64 MiB + 16*len) and 'cap' (hook inert; only fields set just beyond and far beyond the library's caps at known field positions; must be rejected with an allocation delta <= 4 MiB). Oracle: no panic (also in Error()/%+v of the returned error), no worker abort, no reads continuing after EOF, and on success every column reports the block's rows and every Row(i)/RowKV(i) below it works. Non-trivial = the decoder consumed at least the block header; distinct = (target, mutation kind, offset class, outcome class)",
+		Rule:         "inputs = structure-aware mutations of valid library encodings (blocks of every catalogue column and random compositions; every protocol message): every bit flipped and every byte replaced by {00,01,7f,80,ff} at every offset of small encodings; a uvarint and a 64-bit field overwritten at every offset with {0,1,cap-1,cap,cap+1,2^31,2^32,2^63-1,2^64-1} and smaller/non-monotonic neighbours; splices, truncation+garbage, duplication; the column type name in the block header replaced by ~130 malformed names (parentheses reversed / unbalanced / emptied, parameters cut or replaced by garbage, bad Enum / DateTime64 / Decimal / FixedString parameters, nesting 50 and 2000 deep); the same blocks inside NONE / LZ4 / ZSTD frames whose header fields are forged (every small value and the 2^k boundaries of both size fields, with the original and with a recomputed checksum) or bit-flipped; decoded through typed, boxed and inferred targets and every message decoder. Two regimes: 'flood' (hook caps lowered to 2^16 rows / 2^20 string bytes; arbitrary mutations; allocation delta <= 64 MiB + 16*len) and 'cap' (hook inert; only fields set just beyond and far beyond the library's caps at known field positions; must be rejected with an allocation delta <= 4 MiB). Oracle: no panic (also in Error()/%+v of the returned error), no worker abort, no reads continuing after EOF, and on success every column reports the block's rows and every Row(i)/RowKV(i) below it works (and a Bool it hands out is true or false, not a third byte value). Non-trivial = the decoder consumed at least the block header; distinct = (target, mutation kind, offset class, outcome class)",
 		Assumptions:  []string{"allocation measured with runtime/metrics /gc/heap/allocs:bytes (shard workers are single-threaded)", "by-design allocations within the library's own caps (e.g. 100M rows x element size) are avoided in the flood regime by the tag-guarded extra caps"},
 		MinDistinct:  1000,
 		TimeoutQuick: 15 * time.Minute,
@@ -167,8 +167,13 @@ func c06Decode(r *core.Run, regime, kind string, bc *blockCase, data []byte, dec
 			}
 			for i := 0; i < blk.Rows && blk.Columns > 0; i++ {
 				var rp string
-				if rp = core.Recover(func() { _ = dst.Get(i) }); rp != "" {
+				var got ref.Val
+				if rp = core.Recover(func() { got = dst.Get(i) }); rp != "" {
 					r.Violation("inconsistent:row-accessor-panics:"+typeSite(bc.T), fmt.Sprintf("%s/%s decoding %s succeeded (rows=%d) but Row(%d) panics: %s", regime, kind, bc.TS, blk.Rows, i, firstLineOf(rp)), cs())
+					return
+				}
+				if kind != "type-name" && c06BadBool(bc.T, got) {
+					r.Violation("inconsistent:row-accessor-returns-non-bool:"+typeSite(bc.T), fmt.Sprintf("%s/%s decoding %s succeeded (rows=%d) but Row(%d) hands out a bool that is neither true nor false (a byte other than 0/1 was accepted)", regime, kind, bc.TS, blk.Rows, i), cs())
 					return
 				}
 			}
@@ -213,6 +218,38 @@ func c06DecodeCompressed(r *core.Run, kind string, bc *blockCase, data []byte, a
 		return "error"
 	}
 	return "ok"
+}
+
+// c06BadBool: does the value (shaped like t) contain a Bool leaf whose byte is not 0 or 1?
+func c06BadBool(t *ref.Type, v ref.Val) bool {
+	if v.Null {
+		return false
+	}
+	switch t.Base {
+	case "Bool":
+		return len(v.B) == 1 && v.B[0] > 1
+	case "Array":
+		for _, e := range v.L {
+			if c06BadBool(t.Args[0], e) {
+				return true
+			}
+		}
+	case "Nullable", "LowCardinality":
+		return c06BadBool(t.Args[0], v)
+	case "Map":
+		for _, p := range v.L {
+			if len(p.L) == 2 && (c06BadBool(t.Args[0], p.L[0]) || c06BadBool(t.Args[1], p.L[1])) {
+				return true
+			}
+		}
+	case "Tuple":
+		for i, e := range v.L {
+			if i < len(t.Args) && c06BadBool(t.Args[i], e) {
+				return true
+			}
+		}
+	}
+	return false
 }
 
 var hostileInts = []uint64{0, 1, 2, 127, 128, 255, 256, 65535, 65536, 65537, 1 << 20, 1<<20 + 1, 99_999_999, 100_000_000, 100_000_001, 1<<31 - 1, 1 << 31, 1<<32 - 1, 1 << 32, 1 << 40, 1<<63 - 1, 1 << 63, math.MaxUint64}
